@@ -13,6 +13,9 @@ package dastard
 // the run directory must hold one file per (stream, type) that wrote, and every LJH22 / LJH3 / OFF
 // header is decoded with the independent decoders and compared with the reported identity.
 // Every source type is also prepared twice on the same object without a Stop in between (family D).
+// Family F drives one SourceControl through its RPC handlers (Configure*Source, Start, Stop) for two (thorough: three)
+// sources in turn and compares what the clients are told after each Start (STATUS, CHANNELNAMES, channels.json)
+// with the identity of the source that is running.
 // Lancero, sampled (family E and a twicer of family D): the cards are scripted lancero.Lanceroer values and
 // the source is started the way Start does it - the real Configure (rows, line period, NSAMP from a
 // cringeGlobals file), the real Sample with sampleCard on each active card (it paces itself on the card's
@@ -20,6 +23,7 @@ package dastard
 // the per-card geometry are what the real Sample finds in the cards' streams; cards differ in their columns.
 
 import (
+	"encoding/json"
 	"fmt"
 	"os"
 	"path/filepath"
@@ -1487,6 +1491,248 @@ func v19SimpleTwicer(kind string) v19Twicer {
 }
 
 // ---------------------------------------------------------------------------------------------
+// F. through the RPC layer: what the clients are told. One SourceControl (as RunRPCServer builds it) is asked to
+// configure and Start source A, then Stop, then configure and Start source B (any source type, any configuration of
+// the menu, so the channel count may or may not change while the numbering does). After each Start that succeeded,
+// while the source runs, the last STATUS message (Nchannels, ChanGroups), the last CHANNELNAMES message and the
+// channel groups stored in ~/.dastard/channels.json must describe the source that is running now: every
+// single-preparation oracle on the active source, Nchannels = number of streams, the reported groups cover exactly
+// the channel numbers in use, the names are those of the processors.
+
+type v19RPCItem struct {
+	label string
+	kind  string // lancero, triangle, simpulse
+	card  int    // lancero: the active card
+	first int
+	sep   int // ChanSepColumns
+	nchan int // triangle, simpulse
+}
+
+const v19RPCRows = 4
+
+var v19RPCCardCols = []int{2, 1} // columns of the simulated Lancero cards 0 and 1
+
+func v19RPCMenu() []v19RPCItem {
+	return []v19RPCItem{
+		{label: "Lancero card 0 (2 columns x 4 rows) FirstRow=1 ChanSepColumns=0", kind: "lancero", card: 0, first: 1, sep: 0},
+		{label: "Lancero card 0 (2 columns x 4 rows) FirstRow=1 ChanSepColumns=10", kind: "lancero", card: 0, first: 1, sep: 10},
+		{label: "Lancero card 0 (2 columns x 4 rows) FirstRow=5 ChanSepColumns=0", kind: "lancero", card: 0, first: 5, sep: 0},
+		{label: "Lancero card 1 (1 column x 4 rows) FirstRow=1 ChanSepColumns=0", kind: "lancero", card: 1, first: 1, sep: 0},
+		{label: "Lancero card 1 (1 column x 4 rows) FirstRow=20 ChanSepColumns=6", kind: "lancero", card: 1, first: 20, sep: 6},
+		{label: "Triangle 16 channels", kind: "triangle", nchan: 16},
+		{label: "Triangle 8 channels", kind: "triangle", nchan: 8},
+		{label: "SimPulse 8 channels", kind: "simpulse", nchan: 8},
+		{label: "SimPulse 3 channels", kind: "simpulse", nchan: 3},
+	}
+}
+
+func (it v19RPCItem) truth() []v19Truth {
+	if it.kind == "lancero" {
+		p := &v19LanceroPrep{menu: []v19LanceroCfg{{cards: []v19Card{{it.card, v19RPCCardCols[it.card], v19RPCRows}}}}}
+		return p.truth(0)
+	}
+	return (&v19SimplePrep{menu: [][]int{{it.nchan}}}).truth(0)
+}
+
+// v19GroupsCover: do the groups cover exactly the channel numbers, without overlap?
+func v19GroupsCover(groups []GroupIndex, numbers []int) string {
+	covered := map[int]bool{}
+	for _, g := range groups {
+		for c := g.Firstchan; c < g.Firstchan+g.Nchan; c++ {
+			if covered[c] {
+				return fmt.Sprintf("channel number %d lies in two of the groups", c)
+			}
+			covered[c] = true
+		}
+	}
+	used := map[int]bool{}
+	var missing, extra []int
+	for _, n := range numbers {
+		if !covered[n] && !used[n] {
+			missing = append(missing, n)
+		}
+		used[n] = true
+	}
+	for c := range covered {
+		if !used[c] {
+			extra = append(extra, c)
+		}
+	}
+	sort.Ints(missing)
+	sort.Ints(extra)
+	if len(missing) > 0 || len(extra) > 0 {
+		return fmt.Sprintf("channel numbers in use but in no group: %v; covered by a group but not in use: %v", missing, extra)
+	}
+	return ""
+}
+
+func v19RPCRun(r *vexp.Runner, x *vexp.X, menu []v19RPCItem, seq []int) vexp.Result {
+	var labels []string
+	for _, k := range seq {
+		labels = append(labels, "["+menu[k].label+"]")
+	}
+	what := "SourceControl: configure, Start, Stop in turn for " + strings.Join(labels, " then ")
+	x.Logf("%s", what)
+	res := vexp.Result{Nontrivial: true}
+	bad := func(class, f string, a ...interface{}) vexp.Result {
+		res.Violation, res.Class = what+": "+fmt.Sprintf(f, a...), class
+		return res
+	}
+
+	saved := cringeGlobalsPath
+	cringeGlobalsPath = filepath.Join(os.TempDir(), fmt.Sprintf("v19_rpc_cringeGlobals_%d.json", os.Getpid()))
+	defer func() { os.Remove(cringeGlobalsPath); cringeGlobalsPath = saved }()
+	const linePeriod = 1000
+	globals := fmt.Sprintf(`{"SETT": 18, "seqln": %d, "lsync": %d, "testpattern": 2, "propagationdelay": 9, "NSAMP": 4, "carddelay": 7, "XPT": 3}`, v19RPCRows, linePeriod)
+	if err := os.WriteFile(cringeGlobalsPath, []byte(globals), 0644); err != nil {
+		panic("harness: " + err.Error())
+	}
+	home, err := os.UserHomeDir()
+	if err != nil {
+		panic("harness: " + err.Error())
+	}
+	if err := os.MkdirAll(filepath.Join(home, ".dastard"), 0755); err != nil {
+		panic("harness: " + err.Error())
+	}
+	stored := filepath.Join(home, ".dastard", "channels.json")
+	os.Remove(stored)
+
+	sc := NewSourceControl()
+	sc.status.Npresamp, sc.status.Nsamples = v19npre, v19nsamp
+	sc.lancero.devices = map[int]*LanceroDevice{}
+	sc.lancero.ncards = 0
+	for d, ncols := range v19RPCCardCols {
+		card, err := lancero.NewNoHardware(ncols, v19RPCRows, linePeriod)
+		if err != nil {
+			panic("harness: " + err.Error())
+		}
+		sc.lancero.devices[d] = &LanceroDevice{card: card, devnum: d}
+		sc.lancero.ncards++
+	}
+	// what the client updater and RunRPCServer's heartbeat loop do: receive. The last message of each kind is kept.
+	updates := make(chan ClientUpdate, 10)
+	sc.clientUpdates = updates
+	type v19Sync struct {
+		status *ServerStatus
+		names  []string
+		ack    chan struct{}
+	}
+	quit := make(chan struct{})
+	defer close(quit)
+	go func() {
+		var status *ServerStatus
+		var names []string
+		for {
+			select {
+			case <-quit:
+				return
+			case <-sc.heartbeats:
+			case u := <-updates:
+				switch v := u.state.(type) {
+				case ServerStatus:
+					if u.tag == "STATUS" {
+						st := v
+						st.ChanGroups = append([]GroupIndex{}, v.ChanGroups...)
+						status = &st
+					}
+				case []string:
+					if u.tag == "CHANNELNAMES" {
+						names = append([]string{}, v...)
+					}
+				case *v19Sync:
+					v.status, v.names = status, names
+					status, names = nil, nil
+					close(v.ack)
+				}
+			}
+		}
+	}()
+	received := func() (*ServerStatus, []string) {
+		s := &v19Sync{ack: make(chan struct{})}
+		updates <- ClientUpdate{"V19SYNC", s}
+		<-s.ack
+		return s.status, s.names
+	}
+	defer func() {
+		for _, a := range []*AnySource{&sc.lancero.AnySource, &sc.triangle.AnySource, &sc.simPulses.AnySource} {
+			v19Close(a)
+		}
+	}()
+
+	ok := false
+	for step, k := range seq {
+		it := menu[k]
+		when := fmt.Sprintf("source %d of %d %s", step+1, len(seq), labels[step])
+		var name string
+		var src *AnySource
+		x.Steps += 3
+		switch it.kind {
+		case "lancero":
+			name, src = "LANCEROSOURCE", &sc.lancero.AnySource
+			err = sc.ConfigureLanceroSource(&LanceroSourceConfig{CardDelay: []int{0}, ActiveCards: []int{it.card}, FirstRow: it.first, ChanSepColumns: it.sep}, &ok)
+		case "triangle":
+			name, src = "TRIANGLESOURCE", &sc.triangle.AnySource
+			err = sc.ConfigureTriangleSource(&TriangleSourceConfig{Nchan: it.nchan, SampleRate: 10000, Min: 100, Max: 200}, &ok)
+		case "simpulse":
+			name, src = "SIMPULSESOURCE", &sc.simPulses.AnySource
+			err = sc.ConfigureSimPulseSource(&SimPulseSourceConfig{Nchan: it.nchan, SampleRate: 10000, Pedestal: 1000, Amplitudes: []float64{3000, 5000}, Nsamp: 100}, &ok)
+		}
+		if err != nil {
+			return bad("rpc-configuration-rejected", "%s: the configuration is rejected: %v", when, err)
+		}
+		received() // forget what was sent before this Start
+		if err := sc.Start(&name, &ok); err != nil {
+			return bad("rpc-start-error", "%s: Start fails: %v", when, err)
+		}
+		status, names := received()
+		// the source is running; its identity tables were built before the run and do not change during it
+		truth := it.truth()
+		x.Logf("%s: started", when)
+		if v, c := v19Identity(x, src, truth); v != "" {
+			return bad("rpc-"+c, "%s: %s", when, v)
+		}
+		numbers := append([]int{}, src.chanNumbers...)
+		if status == nil {
+			return bad("rpc-no-status", "%s: Start succeeded but sent no STATUS message", when)
+		}
+		x.Logf("   STATUS: Running=%v SourceName=%s Nchannels=%d ChanGroups=%v", status.Running, status.SourceName, status.Nchannels, status.ChanGroups)
+		x.Logf("   CHANNELNAMES: %v", names)
+		if !status.Running {
+			return bad("rpc-status-not-running", "%s: Start succeeded but the STATUS message says Running=false", when)
+		}
+		if status.Nchannels != len(truth) {
+			return bad("rpc-status-nchannels", "%s: the STATUS message says Nchannels=%d, the source runs %d data streams", when, status.Nchannels, len(truth))
+		}
+		if v := v19GroupsCover(status.ChanGroups, numbers); v != "" {
+			return bad("rpc-status-groups", "%s: the STATUS message reports ChanGroups %v, the channel numbers in use are %v (source groups %v): %s",
+				when, status.ChanGroups, numbers, src.ChanGroups(), v)
+		}
+		if fmt.Sprint(names) != fmt.Sprint(src.ChannelNames()) {
+			return bad("rpc-channelnames", "%s: the CHANNELNAMES message is %v, the streams are named %v", when, names, src.ChannelNames())
+		}
+		text, err := os.ReadFile(stored)
+		if err != nil {
+			return bad("rpc-stored-groups", "%s: Start succeeded but ~/.dastard/channels.json cannot be read: %v", when, err)
+		}
+		var sg []GroupIndex
+		if err := json.Unmarshal(text, &sg); err != nil {
+			return bad("rpc-stored-groups", "%s: ~/.dastard/channels.json does not decode as a list of groups: %v", when, err)
+		}
+		x.Logf("   channels.json: %v", sg)
+		if v := v19GroupsCover(sg, numbers); v != "" {
+			return bad("rpc-stored-groups", "%s: ~/.dastard/channels.json holds groups %v, the channel numbers in use are %v: %s", when, sg, numbers, v)
+		}
+		d := ""
+		if err := sc.Stop(&d, &ok); err != nil {
+			return bad("rpc-stop-error", "%s: Stop fails: %v", when, err)
+		}
+		r.Count("rpc_starts_checked", 1)
+	}
+	res.Outcome = "rpc|" + fmt.Sprint(seq)
+	return res
+}
+
+// ---------------------------------------------------------------------------------------------
 
 // v19Tuples lists every way to give n cards 1..max columns each.
 func v19Tuples(n, max int) [][]int {
@@ -1548,7 +1794,10 @@ func TestVerifC19(t *testing.T) {
 		"prepared twice (same source object prepared for A, optionally PrepareRun, no Stop, prepared for B; compared with a fresh object prepared for B, all single-preparation oracles, LJH22+LJH3+OFF files with projectors on all streams for <= %d streams): "+
 		"every ordered pair out of Lancero 4 geometries (1 card 1x2, 1 card 2x3, 2 cards 1x2, cards 1 and 3 with 2x2 and 2x3) x 6 separation settings (4 accepted, 2 rejected), "+
 		"Lancero sampled (every preparation = real Configure + Sample + PrepareChannels on the same source, device and card objects) 5 card sets (0:1x2; 0:2x3; 0:1x2,1:2x2; 1:2x3,3:1x3; 2:2x2,0:1x2,1:3x2) x 2 separation settings, "+
-		"9 Abaco layouts (1..3 groups, one or two producers, one overlapping), generic/Triangle/SimPulse 1..4 channels, Roach device lists [1] [2] [3] [4] [1 2] [2 2] [3 1]",
+		"9 Abaco layouts (1..3 groups, one or two producers, one overlapping), generic/Triangle/SimPulse 1..4 channels, Roach device lists [1] [2] [3] [4] [1 2] [2 2] [3 1]; "+
+		"through the RPC layer (one SourceControl: Configure*Source, Start, [STATUS, CHANNELNAMES, ~/.dastard/channels.json checked while the source runs], Stop, for each source in turn): "+
+		"every ordered pair (thorough: triple) out of 9 sources - Lancero on simulated card 0 (2 columns x 4 rows) with (FirstRow, ChanSepColumns) (1,0) (1,10) (5,0), on card 1 (1 column x 4 rows) with (1,0) (20,6), "+
+		"Triangle 16 and 8 channels, SimPulse 8 and 3 channels - so restarts with equal and with different stream counts, within and across source types",
 		devsets, maxCols, maxRows, firsts, lanceroFiles, sampDevsets, sampMaxCols, sampRows, len(gtypes), abacoFiles, twiceFiles))
 	r.Note("RoachSource is prepared with nchan set directly (its Sample needs a UDP socket); Lancero geometry is set directly (family A, twice/lancero) or found by the real Sample/sampleCard in the streams of scripted cards (lancero-sampled, twice/lancero-sampled)")
 	r.Note("lancero-sampled: sampleCard measures its 200 ms on the card's time stamps; the scripted cards stream 5 frames at 20 frames/s of card time in three driver reads; multi-card Lancero cannot run (the reader panics 'not yet implemented'), identity is checked after PrepareRun as in family A")
@@ -1647,5 +1896,18 @@ func TestVerifC19(t *testing.T) {
 				return v19TwiceRun(r, x, tw, a, b, twiceFiles)
 			})
 		}
+	}
+
+	// F. through the RPC layer: every ordered pair (A, B) of the menu (thorough: every ordered triple)
+	rpcMenu := v19RPCMenu()
+	for a := range rpcMenu {
+		a := a
+		r.DFS(fmt.Sprintf("rpc/A=%d", a), -1, func(x *vexp.X) vexp.Result {
+			seq := []int{a, x.Choose(len(rpcMenu))}
+			if thorough {
+				seq = append(seq, x.Choose(len(rpcMenu)))
+			}
+			return v19RPCRun(r, x, rpcMenu, seq)
+		})
 	}
 }
